@@ -242,6 +242,9 @@ def snapshot_iteration(repo: Repo, R):
                 n += 1
                 continue
             snap = isinstance(lp.iter, ast.Call) and isinstance(lp.iter.func, ast.Name) and lp.iter.func.id in ("list", "tuple", "sorted", "frozenset")
+            if not snap and isinstance(lp.iter, ast.Call):
+                from .c12 import sorting_helper
+                snap = sorting_helper(repo, fi, lp.iter)  # a helper returning sorted(<arg>) also builds a new list
             n += 1
             R.check(snap, rule, key_of(fi, it), fi.at(lp),
                     f"loop over `{it}` reaches {mut}, which mutates the set being walked; it iterates a snapshot: {snap}",
